@@ -316,7 +316,7 @@ theorem step_put (hU : Univ c.kind U) (hI : Inv c U s spec n B) (k v : Bytes)
     have hpre := putPre_of_inv hI (key := k) (val := v) hn hB
     cases hs : Spec.get spec dig with
     | none =>
-      obtain ⟨b, rl, h1, h2⟩ := storePut_absent hU' hI.bits8 hI.bits31 hI.a hpre hk hs
+      obtain ⟨b, rl, h1, h2, _⟩ := storePut_absent hU' hI.bits8 hI.bits31 hI.a hpre hk hs
       simp only [stepS, h1, specStep, hcls, hs, true_and]
       apply inv_put hU hI hk hB (frame_setNext _ _ _) _ h2
       show ((putMem s.m k v).inext.set b rl).length ≤ _
@@ -337,7 +337,7 @@ theorem step_put (hU : Univ c.kind U) (hI : Inv c U s spec n B) (k v : Bytes)
             if_false, true_and]
           exact hI'
         · have hv' : ¬ old = v := fun h => hv h.symm
-          obtain ⟨b, rl, blk, h1, h2⟩ := p3 himm0 hv hpre
+          obtain ⟨b, rl, blk, h1, h2, _⟩ := p3 himm0 hv hpre
           simp only [stepS, h1, specStep, hcls, hs, himm', hv', Bool.false_eq_true, if_false, true_and]
           apply inv_put hU hI hk hB (frame_addFree_setNext _ _ _ _) _ h2
           show ((putMem s.m k v).inext.set b rl).length ≤ _
@@ -365,7 +365,7 @@ theorem step_rm (hU : Univ c.kind U) (hI : Inv c U s spec n B) (k : Bytes)
       simp only [stepS, r1 hs, specStep, hcls, hs, true_and]
       exact hI'
     | some kv =>
-      obtain ⟨b, rl, blk, h1, h2⟩ := r2 kv hs
+      obtain ⟨b, rl, blk, h1, h2, _⟩ := r2 kv hs
       simp only [stepS, h1, specStep, hcls, hs, true_and]
       apply inv_rm hI (frame_addFree_setNext _ _ _ _) _ h2
       exact NMap.length_set_le _ _ _
